@@ -63,7 +63,12 @@ static void fp_prime_set(const bn_t p) {
 		fp_new(r);
 
 		bn_copy(&(ctx->prime), p);
+		/* -1/3 mod p: (p - 1)/3 for p = 1 mod 3, (2p - 1)/3 for p = 2 mod 3. */
 		bn_sub_dig(&(ctx->over3), p, 1);
+		bn_mod_dig(&rem, &(ctx->over3), 3);
+		if (rem != 0) {
+			bn_add(&(ctx->over3), &(ctx->over3), p);
+		}
 		bn_div_dig(&(ctx->over3), &(ctx->over3), 3);
 
 #if FP_RDC == MONTY || !defined(STRIP)
